@@ -48,6 +48,7 @@ class Setup:
                 ops.append(("r", w, a, 0))
                 for vi in range(1 if lite else 2):
                     ops.append(("w", w, a, vi))
+        ops.append(("reset", 0, 0, 0))  # Memory.reset(): what load_program does
         self.ops = ops
 
     def fresh(self):
@@ -72,6 +73,14 @@ class Setup:
 
 def apply(setup, mem, ref, op, checks=None):
     kind, width, a, vi = op
+    if kind == "reset":
+        try:
+            mem.reset()
+        except Exception as e:  # noqa
+            if checks is not None:
+                checks.append(("unexpected-error", f"reset() raised {type(e).__name__}: {e}"))
+        ref.clear()
+        return
     cells = setup.cells(a, width)
     cb = setup.cell_bits
     raised = None
@@ -102,8 +111,11 @@ def apply(setup, mem, ref, op, checks=None):
             for i, x in enumerate(cells):
                 if not setup.valid(x):
                     break
-                ref[x] = (v >> (cb * i)) & ((1 << cb) - 1)
-                ref.setdefault("_straddle", set()).add(x)
+                new = (v >> (cb * i)) & ((1 << cb) - 1)
+                alt = ref.setdefault("_straddle", {})
+                # the cell may keep what it held (any of its earlier alternatives) or take the new value
+                alt[x] = set(alt.get(x, {ref.get(x, 0)})) | {new}
+                ref[x] = new
         return
     if raised is not None:
         if checks is not None:
@@ -113,19 +125,21 @@ def apply(setup, mem, ref, op, checks=None):
         v = VALS[width][vi]
         for i, x in enumerate(cells):
             ref[x] = (v >> (cb * i)) & ((1 << cb) - 1)
+            ref.get("_straddle", {}).pop(x, None)
     elif checks is not None:
-        exp = 0
-        dont = ref.get("_straddle", ())
-        if any(x in dont for x in cells):
-            return
+        alt = ref.get("_straddle", {})
         for i, x in enumerate(cells):
-            exp |= ref.get(x, 0) << (cb * i)
-        if val != exp:
-            checks.append(("read-value", f"{opname(op)} returned {val:#x}, expected {exp:#x}"))
+            got = (val >> (cb * i)) & ((1 << cb) - 1)
+            allowed = alt.get(x, {ref.get(x, 0)})
+            if got not in allowed:
+                checks.append(("read-value", f"{opname(op)} returned {val:#x}: cell {x:#x} reads {got:#x}, expected {' or '.join(hex(z) for z in sorted(allowed))}"))
+                break
 
 
 def opname(op):
     kind, width, a, vi = op
+    if kind == "reset":
+        return "reset()"
     return f"{(RNAME if kind == 'r' else WNAME)[width]}({a:#x}{'' if kind == 'r' else ', ' + hex(VALS[width][vi])})"
 
 
@@ -138,7 +152,26 @@ def run_history(setup, hist):
     before = visible(setup, mem)
     op = setup.ops[hist[-1]]
     apply(setup, mem, ref, op, checks)
-    cells = setup.cells(op[2], op[1])
+    cells = setup.cells(op[2], op[1]) if op[0] != "reset" else []
+    # the public cell table after every transition: exactly the written cells with their values
+    vis = visible(setup, mem)
+    if isinstance(vis, dict):
+        alt = ref.get("_straddle", {})
+        want = {x for x in ref if x != "_straddle"} | set(alt)
+        gotv = {x: int(r[1]) for x, r in vis.items()}
+        # cells that only a faulting straddling store may have touched may be present or absent
+        optional = {x for x in alt if len(alt[x]) > 1 and 0 in alt[x] and x not in gotv}
+        if set(gotv) != want - optional:
+            checks.append(("table-cells", f"after {opname(op)} the cell table lists {sorted(gotv)[:6]}, written cells are {sorted(want)[:6]}"))
+        else:
+            for x, v in gotv.items():
+                if v not in alt.get(x, {ref.get(x, 0)}):
+                    checks.append(("table-value", f"after {opname(op)} cell {x:#x} is shown as {v:#x}, expected {' or '.join(hex(z) for z in sorted(alt.get(x, {ref.get(x, 0)})))}"))
+                    break
+    elif op[0] != "reset":
+        checks.append(("table-error", f"the cell table raised {vis[1]} after {opname(op)}"))
+    if op[0] == "reset":
+        return mem, ref, checks
     if cells is None or all(not setup.valid(x) for x in cells) or op[0] == "r":
         # an access lying entirely outside the valid range (and any read, and any unsupported access) changes nothing
         if visible(setup, mem) != before:
@@ -168,8 +201,10 @@ def expand(shard):
             p.evaluations += 1
             p.traces += 1
             op = setup.ops[oi]
-            cells = setup.cells(op[2], op[1])
-            if cells is not None:
+            cells = setup.cells(op[2], op[1]) if op[0] != "reset" else []
+            if op[0] == "reset":
+                p.counters["reset"] += 1
+            elif cells is not None:
                 inv = sum(1 for x in cells if not setup.valid(x))
                 if inv and inv < len(cells):
                     p.counters["straddling"] += 1
@@ -186,7 +221,8 @@ def expand(shard):
             for f, d in checks:
                 p.violation(dict(oracle="flat-memory", arch=arch, field=f), dict(kind="mem-history", arch=arch, seed=seed, lite=lite, hist=list(hist)),
                             f"{arch} memory: [{'; '.join(opname(setup.ops[i]) for i in hist)}]: {d}", size=(len(hist), hist))
-            key = digest((canon(mem), tuple(sorted((k, v) for k, v in ref.items() if k != "_straddle" and v)), tuple(sorted(ref.get("_straddle", ())))))
+            key = digest((canon(mem), tuple(sorted((k, v) for k, v in ref.items() if k != "_straddle")),
+                          tuple(sorted((k, tuple(sorted(v))) for k, v in ref.get("_straddle", {}).items()))))
             out.append((hist, key, False))
     p.notes["out"] = out
     return p
@@ -202,11 +238,11 @@ def replay(case):
 def run(ctx):
     ctx.rule = ("BFS over histories of read/write x widths {1,2,4,8 bytes} x addresses around both ends of the valid range (aligned, unaligned, negative, "
                 ">= 2^32, straddling) on the real flat memories obtained from RiscvSimulation().state.memory and ToySimulation().state.memory, replayed on "
-                "fresh objects, deduplicated on the canonical object state. Oracle: cell dictionary with address reduction mod 2^32 (none for TOY): reads "
+                "fresh objects, deduplicated on the canonical object state. Operations include reset(). Oracle: cell dictionary with address reduction mod 2^32 (none for TOY): reads "
                 "compose the last written cells little-endian; an access touching an invalid address raises MemoryAddressError; reads and accesses entirely "
-                "outside the range leave the canonical state unchanged; byte accesses on the 16-bit-cell TOY memory raise. Non-trivial = read of a written "
+                "outside the range leave the canonical state unchanged; byte accesses on the 16-bit-cell TOY memory raise; after every transition the public cell table lists exactly the written cells with their values. Non-trivial = read of a written "
                 "cell or straddling access.")
-    ctx.assumptions += ["for a store straddling the range boundary only 'raises' is demanded; the cells it may have written are not compared afterwards"]
+    ctx.assumptions += ["for a store straddling the range boundary 'raises' is demanded and every valid cell it touches holds either its old or the new value afterwards"]
     for arch, lite, depth in (("riscv", False, 2), ("riscv", True, 3 if ctx.quick else 4), ("toy", False, 3), ("toy", True, 4 if ctx.quick else 5)):
         t0 = time.time()
         setup = Setup(arch, ctx.seed, lite)
@@ -216,4 +252,4 @@ def run(ctx):
         res.part.sample(dict(kind="mem-history", arch=arch, ops=[opname(setup.ops[i]) for i in (1, len(setup.ops) // 2, len(setup.ops) - 1)]))
         ctx.space(f"{arch}-memory-{'1val' if lite else '2val'}-depth{depth}", res.part, t0, operations=len(setup.ops), addresses=len(setup.addrs), depth=res.depth,
                   closed=res.closed, stopped_early=res.stopped)
-    ctx.require("straddling", "outside", "read-of-written", "wrapped-address", "unsupported")
+    ctx.require("straddling", "outside", "read-of-written", "wrapped-address", "unsupported", "reset")
